@@ -5,15 +5,16 @@
 From C06 Require Import Model Proofs.
 Local Open Scope Z_scope.
 
-(* lpegrex.calcline, for EVERY text and EVERY position >= 0: the line number is a line of the text,
-   the line text is the substring of the input between two newlines / the ends, contains no
-   newline, and line start + column is the (clamped) position *)
+(* lpegrex.calcline, for EVERY text and EVERY position >= 0 (q = the number of characters whose
+   newlines count: position-1 in the repaired code): the line number is a line of the text, the
+   line text is the substring of the input between two newlines / the ends, contains no newline,
+   and line start + column is the (clamped) position *)
 Theorem C06_calcline_spec : forall text pos c, calcline text pos = Some c ->
-  let p := Z.min pos (len text) in
-  0 <= pos /\
+  let p := Z.min pos (len text) in let q := calc_split p in
+  0 <= pos /\ 0 <= q <= p /\
   1 <= c_lineno c <= lines text /\
-  c_lineno c = count_nl (firstn (Z.to_nat p) text) + 1 /\
-  0 <= c_colno c <= len (c_line c) /\
+  c_lineno c = count_nl (firstn (Z.to_nat q) text) + 1 /\
+  0 <= c_colno c <= len (c_line c) + (p - q) /\
   c_linestart c - 1 + c_colno c = p /\
   c_lineend c = c_linestart c - 1 + len (c_line c) /\
   no_nl (c_line c) /\
@@ -23,60 +24,36 @@ Theorem C06_calcline_spec : forall text pos c, calcline text pos = Some c ->
 Proof. exact calcline_spec. Qed.
 Print Assumptions C06_calcline_spec.
 
-(* the full column statement (1 <= col <= |line|+1 for every position inside the input) is false
-   for the code as it is ... *)
-Theorem C06_calcline_col_refuted : ~ calcline_col_full.
-Proof. exact calcline_col_refuted. Qed.
-Print Assumptions C06_calcline_col_refuted.
+(* full strength (the code was repaired in /repo 4fe17f9): for every non-empty text and every
+   position 1..|text|+1 the column lies in 1..|line|+1 *)
+Theorem C06_calcline_col : calcline_col_full.
+Proof. exact calcline_col. Qed.
+Print Assumptions C06_calcline_col.
 
-(* ... column 0 is reported exactly when the position is 0 or sits on a newline ... *)
+(* column 0 only for position 0 / the empty text (never for an error position inside a text) *)
 Theorem C06_calcline_col0_iff : forall text pos c, calcline text pos = Some c ->
-  let p := Z.min pos (len text) in
-  (c_colno c = 0 <-> (p = 0 \/ last (firstn (Z.to_nat p) text) 0 = NL)).
+  (c_colno c = 0 <-> Z.min pos (len text) = 0).
 Proof. exact calcline_col0_iff. Qed.
 Print Assumptions C06_calcline_col0_iff.
 
-(* ... and everywhere else the column lies inside the line *)
-Theorem C06_calcline_col_partial : forall text pos c, calcline text pos = Some c ->
-  let p := Z.min pos (len text) in
-  1 <= p -> last (firstn (Z.to_nat p) text) 0 <> NL -> 1 <= c_colno c <= len (c_line c).
-Proof. exact calcline_col_partial. Qed.
-Print Assumptions C06_calcline_col_partial.
+(* full strength (repaired in /repo fb68b76): escape decoding is a total function and EVERY escape
+   the grammar accepts calls its callback inside its domain (string.char: 0..UCHAR_MAX,
+   utf8.char: 0..MAXUTF on tonumber's 64-bit wrapped value) *)
+Theorem C06_escape_total : escape_total.
+Proof. exact escape_total_holds. Qed.
+Print Assumptions C06_escape_total.
 
-(* escape decoding is a total function, but the accepted escapes are not all inside the callbacks'
-   domains (string.char: 0..UCHAR_MAX, utf8.char: 0..MAXUTF): two refutations ... *)
-Theorem C06_escape_total_refuted_dec : ~ escape_total.
-Proof. exact escape_total_refuted_dec. Qed.
-Print Assumptions C06_escape_total_refuted_dec.
-
-Theorem C06_escape_total_refuted_u : ~ escape_total.
-Proof. exact escape_total_refuted_u. Qed.
-Print Assumptions C06_escape_total_refuted_u.
-
-(* ... every value handed to tochar is a byte unless the escape is a 3-digit decimal above
-   UCHAR_MAX (the family \256..\299) ... *)
-Theorem C06_escape_char_partial : forall l v r, decode_escape l = EChar v r ->
-  0 <= v <= Z.max UCHAR_MAX (100 * DEC3_LEAD_MAX + 99) /\ (UCHAR_MAX < v -> dec3 l v r).
-Proof. exact escape_char_domain. Qed.
-Print Assumptions C06_escape_char_partial.
-
-(* ... every value handed to toutf8char is tonumber's 64-bit wrapped value of the hex digits ... *)
-Theorem C06_escape_utf8_partial : forall l v r, decode_escape l = EUtf8 v r ->
-  0 <= v < 2 ^ 64 /\
-  exists digs, digs <> [] /\ forallb is_hex digs = true /\ v = hexval digs /\ l = 117 :: 123 :: digs ++ 125 :: r.
-Proof. exact escape_utf8_domain. Qed.
-Print Assumptions C06_escape_utf8_partial.
-
-(* ... so the inputs on which a callback is called outside its domain are exactly these two families *)
-Theorem C06_escape_undefined_iff : forall l, ~ esc_defined (decode_escape l) <->
-  (exists v r, decode_escape l = EChar v r /\ UCHAR_MAX < v /\ dec3 l v r) \/
-  (exists v r, decode_escape l = EUtf8 v r /\ MAXUTF < v).
-Proof. exact escape_undefined_iff. Qed.
-Print Assumptions C06_escape_undefined_iff.
+(* every value handed to toutf8char is tonumber's value of the captured hex digits (shape of the
+   \u rule) *)
+Theorem C06_escape_utf8_shape : forall r1 digs r3, u_bounded_digits r1 = Some (digs, r3) ->
+  0 <= hexval digs <= MAXUTF.
+Proof. exact u_bounded_value. Qed.
+Print Assumptions C06_escape_utf8_shape.
 
 (* capture nesting: with the depth the expression ladder produces for n nested bracketings,
-   "subcapture nesting too deep" is raised exactly from the computed threshold on
-   (for all n, every family, every context depth) *)
+   the matcher gives up ("subcapture nesting too deep") exactly from the computed threshold on
+   (for all n, every family, every context depth); since /repo c94038a the compiler turns that
+   into a located syntax error instead of a stack traceback (checked by the oracle, not modelled) *)
 Theorem C06_nesting_threshold : forall f ctx n, 0 <= n ->
   (too_deep (depth f ctx n) = true <-> threshold f ctx <= n).
 Proof. exact nesting_threshold. Qed.
